@@ -55,6 +55,18 @@ type Outer struct {
 	Opt int64 `graphql:",optional"`
 }
 
+// Loose is an input object every field of which may be left out; Holder requires one.
+type Loose struct {
+	P *int64
+	Q *string
+	R int64 `graphql:",optional"`
+}
+
+type Holder struct {
+	L  Loose
+	Ls []Loose
+}
+
 type ListsF struct {
 	Ids []int64
 	X   *int64
@@ -309,6 +321,18 @@ func build() *fixture {
 		Outer{X: in2.want.(Inner), Y: ptrOf(in1.want.(Inner)), Zs: []Inner{in1.want.(Inner), in2.want.(Inner)}, Opt: 9}}
 	echo[Outer](qo, sk, "outer")
 	add(argType{name: "outer", gql: "Outer_InputObject", vals: []val{o1, o2}, wrong: append(append([]val{}, lst...), val{`{x: 1, zs: []}`, map[string]interface{}{"x": 1.0, "zs": []interface{}{}}, nil})})
+	// a required input object all of whose own fields can be omitted: {} is a value, nothing / null is not
+	lo1 := val{`{}`, map[string]interface{}{}, Loose{}}
+	lo2 := val{`{p: 4, r: 2}`, map[string]interface{}{"p": 4.0, "r": 2.0}, Loose{P: ptrOf(int64(4)), R: 2}}
+	echo[Loose](qo, sk, "loose")
+	add(argType{name: "loose", gql: "Loose_InputObject", vals: []val{lo1, lo2}, wrong: append(append([]val{}, num...), str...)})
+	echo[Holder](qo, sk, "holder")
+	add(argType{name: "holder", gql: "Holder_InputObject",
+		vals: []val{{`{l: {}, ls: []}`, map[string]interface{}{"l": map[string]interface{}{}, "ls": []interface{}{}}, Holder{Ls: []Loose{}}},
+			{`{l: {q: "x"}, ls: [{}, {p: 1}]}`, map[string]interface{}{"l": map[string]interface{}{"q": "x"}, "ls": []interface{}{map[string]interface{}{}, map[string]interface{}{"p": 1.0}}}, Holder{L: Loose{Q: ptrOf("x")}, Ls: []Loose{{}, {P: ptrOf(int64(1))}}}}},
+		wrong: []val{{`{ls: []}`, map[string]interface{}{"ls": []interface{}{}}, nil}, // l missing
+			{`{l: {}, ls: [{}, $nil]}`, map[string]interface{}{"l": map[string]interface{}{}, "ls": []interface{}{map[string]interface{}{}, nil}}, nil}, // a null element
+			{`{l: $nil, ls: []}`, map[string]interface{}{"l": nil, "ls": []interface{}{}}, nil}}})
 	// a self-referential input object, nested up to four levels, with the fields after the self-reference in use
 	recLit := func(depth int) (string, map[string]interface{}, *Rec) {
 		var lit string
@@ -571,5 +595,5 @@ func run(rp *explore.Report, tier string) {
 
 func init() {
 	reg.Register(&reg.Harness{Property: "C18", Name: "c18/arguments", Level: "exploration", Run: run,
-		Rule: "one echo field per argument type (all int/uint widths, named int/string, float32/64, bool, string, enum, []byte, time.Time, text-unmarshaler, pointers, optional-tagged, lists incl. nested and of pointers, nested input objects, a self-referential input object nested four levels deep) x boundary values x transport {literal, variable, default used (absent / null), default ignored; the argument in the operation or in a named fragment}, plus one three-argument field fed by three variables in every combination of {default, none} x {absent, null, value} and every declaration order, plus variables as elements of list literals / fields of object literals / inside nested lists (all 32 subsets of five positions); oracle: the Go value recorded by the resolver equals the value sent, exactly one resolver call; wrong JSON kinds, missing required and unknown arguments are client errors with zero resolver calls; omitted optional arrives as nil/zero"})
+		Rule: "one echo field per argument type (all int/uint widths, named int/string, float32/64, bool, string, enum, []byte, time.Time, text-unmarshaler, pointers, optional-tagged, lists incl. nested and of pointers, nested input objects, a required input object whose own fields are all optional (alone, as a field and as a list element), a self-referential input object nested four levels deep) x boundary values x transport {literal, variable, default used (absent / null), default ignored; the argument in the operation or in a named fragment}, plus one three-argument field fed by three variables in every combination of {default, none} x {absent, null, value} and every declaration order, plus variables as elements of list literals / fields of object literals / inside nested lists (all 32 subsets of five positions); oracle: the Go value recorded by the resolver equals the value sent, exactly one resolver call; wrong JSON kinds, missing required and unknown arguments are client errors with zero resolver calls; omitted optional arrives as nil/zero"})
 }
